@@ -50,8 +50,6 @@ func (r *Router) parseParamRoute(route *Route) (first string) {
 		route.spath = path
 	}
 
-	// "." -> "\."
-	path = quotePointChar(path)
 	argPos := strings.IndexByte(path, '{')
 	optPos := strings.IndexByte(path, '[')
 	minPos := argPos
@@ -73,6 +71,10 @@ func (r *Router) parseParamRoute(route *Route) (first string) {
 			}
 		}
 	}
+
+	// "." -> "\.". Notice: must quote after the 'start' and 'first' strings are collected,
+	// they are compared with the raw request path.
+	path = quotePointChar(path)
 
 	// has optional char. /blog[/{id}]  -> /blog(?:/{id})
 	if optPos > 0 {
